@@ -19,9 +19,12 @@ PASS_THROUGH_SUFFIX = (
     "::copied", "::to_vec", "::as_slice", "::into_iter", "::iter", "::unwrap", "::expect", "::as_path",
     "::to_path_buf", "::into_boxed_str", "::unwrap_or", "::map_err", "::ok", "::get_mut", "::as_pin_mut",
     "::as_mut_ptr", "::into_string", "::to_str", "::to_string_lossy", "::into_owned", "::as_os_str", "::next", "::values",
-    "::keys", "::iter_mut", "::first", "::last", "::map", "::filter", "::filter_map", "::and_then", "::rev", "::enumerate",
-    "::peekable", "::chain", "::skip", "::take",
+    "::keys", "::iter_mut", "::first", "::last",
 )
+# iterator / Option / Result adaptors: value derived from the receiver – only for the std types (not e.g. aya::Ebpf::map)
+ADAPTORS = ("map", "filter", "filter_map", "and_then", "rev", "enumerate", "peekable", "chain", "skip", "take", "find", "cloned", "copied")
+ADAPTOR_OWNERS = ("std::iter::Iterator::", "core::iter::Iterator::", "std::option::Option::", "core::option::Option::",
+                  "std::result::Result::", "core::result::Result::", "itertools::Itertools::")
 # poll: value comes from the awaited future (arg 0)
 POLL = "std::future::Future::poll"
 
@@ -71,6 +74,9 @@ def is_pass_through(written, resolved):
         for s in PASS_THROUGH_SUFFIX:
             if base.endswith(s):
                 return True
+        nb = norm(c)
+        if nb.startswith(ADAPTOR_OWNERS) and nb.rsplit("::", 1)[-1] in ADAPTORS:
+            return True
     return False
 
 
